@@ -43,6 +43,65 @@ def design(ctx: Ctx):
         raise tlc.MachineryError(f'design counterexample in Selector.tla: {r.violated}\n{r.counterexample[-1:]}')
 
 
+def _replay_work(items):
+    import warnings
+    from ..core import use_repo
+    use_repo()
+    from ..drivers import sel_replay
+    with warnings.catch_warnings():
+        warnings.simplefilter('ignore')
+        try:
+            return sel_replay.replay_chunk(items)
+        except Exception:
+            import traceback
+            return [('harness_error', traceback.format_exc()[-1500:], None)]
+
+
+def replay_design(ctx: Ctx):
+    """spec -> code: every input (measure levels incl. undefined, inter-feature associations below / at / above
+    the threshold, n_best) of the TLC dump of Selector.tla goes through the real selection loop (table-driven measure,
+    table-driven DataFrame.corr under the library's own spearman filter); the returned list must be a result the
+    specification reaches for that input."""
+    import os
+    import shutil
+    from .. import tlaval
+    from ..drivers import sel_replay
+    cfgs = ['MC_Selector_replay.cfg'] if ctx.tier == 'quick' else ['MC_Selector_replay.cfg', 'MC_Selector_replay4.cfg']
+    total = 0
+    for cfg in cfgs:
+        scratch = tlc.scratch_dir()
+        try:
+            r = tlc.run_mc('Selector', cfg, dump=os.path.join(scratch, 'g'), scratch=scratch, timeout=3000)
+            ctx.add_design(r)
+            if not r.ok:
+                raise tlc.MachineryError(f'design counterexample in Selector.tla ({cfg}): {r.violated}')
+            allowed = sel_replay.allowed_results(tlaval.parse_dump(os.path.join(scratch, 'g.dump')))
+        finally:
+            shutil.rmtree(scratch, ignore_errors=True)
+        items = list(allowed.items())
+        if not items:
+            raise tlc.MachineryError(f'no finished state in the dump of Selector.tla ({cfg})')
+        with ProcessPoolExecutor(max_workers=16) as ex:
+            for part in ex.map(_replay_work, [items[i::64] for i in range(64)]):
+                for key, got, want in part:
+                    if key == 'harness_error':
+                        raise tlc.MachineryError(f'selector replayer failed: {got}')
+                    ctx.violations.append(Violation(
+                        clause='C14_selection_not_a_result_of_the_specification',
+                        what=f'measures={list(key[0])} (-1 undefined) associations={[list(r) for r in key[1]]} (threshold 5) n_best={key[2]}: '
+                             f'the selector returned {list(got)}, Selector.tla allows {[list(w) for w in want]}',
+                        sig={'driver': 'sel_replay.replay_input', 'clause': 'C14_selection_not_a_result_of_the_specification', 'task': 'table',
+                             'measures': 'table', 'explained_by_zero_distance': False, 'default_regression_quantitative': False},
+                        replay={'driver': 'sel_replay.replay_input', 'args': {'key': [list(key[0]), [list(r) for r in key[1]], key[2]],
+                                                                             'allowed': [list(w) for w in want]}}))
+        total += len(items)
+        for key, _ in items:
+            ctx.nontrivial.add(jhash(['sel_replay', key]))
+    ctx.traces += total
+    ctx.evaluations += total
+    ctx.notes['design_inputs_replayed'] = total
+
+
 def select_cases(ctx: Ctx, prefixes, n_quick, n_thorough):
     n = n_quick if ctx.tier == 'quick' else n_thorough
     base = ctx.seed * 1_000_003
@@ -80,6 +139,18 @@ def replay_select(ctx: Ctx, rep: dict, prefixes):
     from ..core import use_repo
     use_repo()
     from ..drivers import selector
+    if rep['driver'] == 'sel_replay.replay_input':
+        from ..drivers import sel_replay
+        k = rep['args']['key']
+        key = (tuple(k[0]), tuple(tuple(r) for r in k[1]), k[2])
+        got = sel_replay.replay_input(key)
+        ctx.traces += 1
+        ctx.evaluations += 1
+        if list(got) not in [list(w) for w in rep['args']['allowed']]:
+            ctx.violations.append(Violation(clause='C14_selection_not_a_result_of_the_specification', what=f'replayed input still returns {list(got)}',
+                                            sig={'driver': rep['driver'], 'clause': 'C14_selection_not_a_result_of_the_specification', 'task': 'table',
+                                                 'measures': 'table', 'explained_by_zero_distance': False, 'default_regression_quantitative': False}, replay=rep))
+        return
     if rep['driver'] == 'selector.reencode_case':
         c = selector.reencode_case(rep['args']['seed'])
         jr = tlc.judge('ReencodeTrace', [c], strip=STRIP)
